@@ -25,6 +25,7 @@ fn cases(ob: &str) -> Vec<String> {
     // long and odd character names, encoded surrogates / out-of-range scalars at token starts and in character literals
     for t in [&b"#\\backspacely"[..], b"#\\abcdefghijklmnopqrstuvwxyz", b"(#\\nullnullnull x)", b"#\\x41414141414141414141", b"?\\^abcdefghijkl", b"#\\spacespacespace #\\a",
               b"\xed\xa0\x80", b"#\\\xed\xa0\x80", b"#\\\xf4\x90\x80\x80", b"?\xf5\x80\x80\x80", b"(\xed\xbf\xbf)", b"?\\\xf4\x90\x80\x80", b"\xf7\xbf\xbf\xbf x", b"'\xed\xa0\x80", b"\xe0\x80\x80", b"\xc0\x80", b"#\\\xc1\xbf",
+              b"3.14159265358979323846264338327950288", b"123456789012345678901234.5678", b"0.1234567890123456789012345", b"(1.00000000000000000000000000001e5 -99999999999999999999.99999999999999999999)", b"18446744073709551615.18446744073709551615e18446744073709551615", b"1e99999999999999999999", b"#d1.5e-99999999999",
               b"abcdefghijklmnopqrstuvwxyzabcdefghijklmnopqrstuvwxyz", b"#:abcdefghijklmnopqrstuvwxyz", b"\"\\x41414141414141;\"", b"#xFFFFFFFFFFFFFFFFFFFFFFFFFFFFFFFFFFFFFFFFe", b"#b1111111111111111111111111111111111111111111111111111111111111111111111"] {
         out.push(format!("bytes:{}", crate::hex(t)));
     }
